@@ -81,7 +81,7 @@ type runProc struct {
 type RunKit struct {
 	Root    string // scratch module root (go 1.22: std-http needs it)
 	RootOld string // scratch module at go 1.20, for the other flavours
-	pkgs []*RunPkg
+	pkgs    []*RunPkg
 }
 
 func NewRunKit(work string) (*RunKit, error) {
